@@ -610,7 +610,7 @@ def shards(tier):
 
 def run_shard(spec, ctx):
     with permissive_levels():
-        run_given(histories(), body, ctx, ctx.pick(500, 2600))
+        run_given(histories(), body, ctx, ctx.pick(500, 12000))
 
 
 def replay(data, col):
